@@ -171,7 +171,12 @@ def trace_bounded_instance():
                     if 'ill-defined empirical covariance' in str(e):
                         break
                     raise
-                lp = gauss_logpdf(y, model.gaussian.mean, model.gaussian.covariance, ct)
+                try:
+                    lp = gauss_logpdf(y, model.gaussian.mean, model.gaussian.covariance, ct)
+                except (np.linalg.LinAlgError, ValueError):
+                    # a component collapsed to a covariance that is singular up to rounding: the independent oracle
+                    # (scipy.stats) refuses it; the trace ends here, its prefix is still checked
+                    break
                 wgt = model.weight
                 guard_ok.append(True)
                 own.append(None)
